@@ -56,7 +56,7 @@ def RunsAs (G : List Spec.Name) (ctx : Lscr.Ctx) (code : List Instr) (a : Nat) (
 theorem fragT_simple {s : Stmt} (h : FragT s = true) (h1 : ∀ c t e, s ≠ .ifThen c t e) (h2 : ∀ c b, s ≠ .repeatWhile c b)
     (h3 : ∀ v a b d body, s ≠ .repeatWith v a b d body) : FragS s = true := by
   cases s with
-  | set lv v => simpa [FragT] using h
+  | set lv v => simp only [FragT, Bool.and_eq_true] at h; exact h.1
   | call f as => simpa [FragT] using h
   | exit => rfl
   | ifThen c t e => exact absurd rfl (h1 c t e)
